@@ -40,7 +40,7 @@ def call(med, radio, fn, *a):
         settle(med)
 
 
-def o1_cosim(ctx, joiners, relay):
+def o1_cosim(ctx, joiners, relay, relay_addr=0o1):
     from circuitpython_nrf24l01.rf24_mesh import RF24Mesh, RF24MeshNoMaster
     clock = fresh_env(ctx, tick_ns=2_000_000)
     clock.max_looks = 60000
@@ -61,10 +61,24 @@ def o1_cosim(ctx, joiners, relay):
         rid = fresh_id("relay_id")
         rr = med.add(SimRadio(clock, "relay"))
         rnode = RF24MeshNoMaster(FakeSpiDev(rr), 0, Pin(rr), rid)
-        rnode._begin(0o1)  # an already joined level-1 node (private placement, see netcommon)
+        rnode._begin(relay_addr)  # an already joined node (private placement, see netcommon)
         med.attach_node(rr, rnode.update)
-        pre = [[rid, 0o1]] + [[fresh_id("ghost%d" % i), i] for i in (2, 3, 4, 5)]  # every level-1 slot is leased
-        nodes.append((rid, rr, rnode, 0o1))
+        pre = [[rid, relay_addr]]
+        nodes.append((rid, rr, rnode, relay_addr))
+        anc = int(NS.parent(relay_addr))
+        while anc:  # the relay's ancestors are running, joined nodes too (they route its traffic); none of them accepts children
+            aid = fresh_id("anc%o" % anc)
+            ra_ = med.add(SimRadio(clock, "anc%o" % anc))
+            an = RF24MeshNoMaster(FakeSpiDev(ra_), 0, Pin(ra_), aid)
+            an._begin(anc)
+            an.allow_children = False
+            med.attach_node(ra_, an.update)
+            pre.append([aid, anc])
+            nodes.append((aid, ra_, an, anc))
+            anc = int(NS.parent(anc))
+        # every level-1 slot is leased (to running nodes above, or to nodes that are not running)
+        taken = {a for _k, a in pre}
+        pre += [[fresh_id("ghost%d" % i), i] for i in (1, 2, 3, 4, 5) if i not in taken]
     master.dhcp_dict = SymDict(pre) if ctx.symbolic else dict((k, a) for k, a in pre)
     med.attach_node(rm, master.update)
     for j in range(joiners):
@@ -100,7 +114,7 @@ def o1_cosim(ctx, joiners, relay):
         for (_k, _r, _n, a) in nodes:
             ctx.check(a != addr, "different from every other connected node's")
         if relay:
-            ctx.check(NS.parent(addr) == 0o1, "joined through the level-1 node because the master's own slots are exhausted")
+            ctx.check(NS.parent(addr) == relay_addr, "joined through the relay because the master's own slots are exhausted")
         tab = table_items(master)
         ctx.check(s_or(*[s_and(kk == k, aa == addr) for kk, aa in tab]) if tab else False, "recorded under its ID in the master's table")
         known = ids
@@ -297,6 +311,8 @@ def jobs(tier):
         out.append(Job("O1-co-simulation", o1_cosim, dict(joiners=j, relay=False), cost=100 * j))
     for j in ((1, 2, 3) if tier == "quick" else (1, 2, 3, 4)):
         out.append(Job("O1-co-simulation-through-relay", o1_cosim, dict(joiners=j, relay=True), cost=200 * j))
+    for ra in ((0o444,) if tier == "quick" else (0o444, 0o44, 0o21)):
+        out.append(Job("O1-co-simulation-through-deep-relay", o1_cosim, dict(joiners=1, relay=True, relay_addr=ra), cost=300))
     for tmo in ((300, 700) if tier == "quick" else (300, 700, 1500)):
         out.append(Job("O3-join-under-packet-loss", o3_lossy_join, dict(timeout_ms=tmo), cost=300, shards=8, max_paths=60000))
     for op in ("release", "check_connection"):
